@@ -481,31 +481,10 @@ Lemma clear_results_nodup rows rerun : NoDup (map r_name rows) -> NoDup (map r_n
 Proof. intros H. rewrite clear_results_names. apply NoDup_filter, H. Qed.
 
 (* ---------- prepare_for_resubmission ---------- *)
-Lemma filter_split_length {A} (f : A -> bool) l :
-  length (filter f l) + length (filter (fun x => negb (f x)) l) = length l.
-Proof. induction l as [|a l IH]; cbn; [reflexivity|]. destruct (f a); cbn; lia. Qed.
-
-Lemma map_filter_names (rerun : list N) (jobs : list sjob) :
-  map s_name (filter (fun j => memN (s_name j) rerun) jobs) = filter (fun n => memN n rerun) (map s_name jobs).
-Proof. induction jobs as [|j t IH]; cbn; [reflexivity|]. destruct (memN (s_name j) rerun); cbn; rewrite IH; reflexivity. Qed.
-
-(* number of cluster jobs that are rerun = |rerun| *)
-Lemma rerun_count (rerun : list N) (jobs : list sjob) :
-  NoDup (map s_name jobs) -> NoDup rerun -> incl rerun (map s_name jobs) ->
-  length (filter (fun j => memN (s_name j) rerun) jobs) = length rerun.
-Proof.
-  intros Hj Hr Hi.
-  rewrite <- (map_length s_name), map_filter_names.
-  apply Permutation_length, NoDup_Permutation.
-  - apply NoDup_filter, Hj.
-  - exact Hr.
-  - intros x. rewrite filter_In, memN_In. split; [tauto|]. intros Hx. split; [apply Hi, Hx|exact Hx].
-Qed.
-
 Theorem prepare_spec c rerun d : c_complete c = true ->
   exists c', prepare c rerun d = Some c' /\
     c_complete c' = false /\ c_submitter c' = c_submitter c /\ c_num c' = c_num c /\ c_groups c' = c_groups c /\
-    c_submitted c' = (c_num c - Z.of_nat (length rerun))%Z /\
+    c_submitted c' = Z.of_nat (length (filter (fun j => negb (memN (s_name j) rerun) && negb (jstate_eqb (s_state j) NOT_SUBMITTED)) (c_jobs c))) /\
     c_completed c' = Z.of_nat (length (filter (fun j => negb (memN (s_name j) rerun) && jstate_eqb (s_state j) DONE) (c_jobs c))) /\
     c_jobs c' = map (prep_job rerun d) (c_jobs c) /\
     map s_name (c_jobs c') = map s_name (c_jobs c).
@@ -520,23 +499,43 @@ Proof. intros H. unfold prep_job. apply memN_In in H. rewrite H. reflexivity. Qe
 Lemma prep_job_other rerun d j : ~ In (s_name j) rerun -> prep_job rerun d j = j.
 Proof. intros H. unfold prep_job. apply memN_false in H. rewrite H. reflexivity. Qed.
 
-(* counters after the reset, for a cluster whose counters describe its job list *)
+Lemma filter_map_length {A B} (f : A -> B) (p : B -> bool) l :
+  length (filter p (map f l)) = length (filter (fun x => p (f x)) l).
+Proof. induction l as [|a l IH]; cbn; [reflexivity|]. destruct (p (f a)); cbn; rewrite IH; reflexivity. Qed.
+Lemma filter_ext_length {A} (p q : A -> bool) l : (forall x, p x = q x) -> length (filter p l) = length (filter q l).
+Proof. intros H. induction l as [|a l IH]; cbn; [reflexivity|]. rewrite H. destruct (q a); cbn; rewrite IH; reflexivity. Qed.
+Lemma filter_le_length {A} (p q : A -> bool) l : (forall x, p x = true -> q x = true) -> length (filter p l) <= length (filter q l).
+Proof.
+  intros H. induction l as [|a l IH]; cbn; [lia|]. destruct (p a) eqn:E.
+  - rewrite (H a E). cbn. lia.
+  - destruct (q a); cbn; lia.
+Qed.
+
+(* counters after the reset describe the job table that is written with them *)
 Theorem prepare_counters c rerun d c' :
   prepare c rerun d = Some c' ->
-  c_num c = Z.of_nat (length (c_jobs c)) -> NoDup (map s_name (c_jobs c)) ->
-  NoDup rerun -> incl rerun (map s_name (c_jobs c)) ->
-  (c_submitted c' = Z.of_nat (length (filter (fun j => negb (memN (s_name j) rerun)) (c_jobs c))) /\
-   0 <= c_completed c' <= c_submitted c' /\ c_submitted c' <= c_num c' /\
-   (c_num c' - c_submitted c' = Z.of_nat (length rerun)))%Z.
+  c_submitted c' = Z.of_nat (length (filter (fun j => negb (jstate_eqb (s_state j) NOT_SUBMITTED)) (c_jobs c'))) /\
+  c_completed c' = Z.of_nat (length (filter (fun j => jstate_eqb (s_state j) DONE) (c_jobs c'))) /\
+  (0 <= c_completed c' <= c_submitted c')%Z /\
+  (c_num c = Z.of_nat (length (c_jobs c)) -> (c_submitted c' <= c_num c')%Z).
 Proof.
-  unfold prepare. destruct (c_complete c); [|discriminate]. intros E Hn Hnd Hr Hi. inversion E; subst c'; cbn.
-  pose proof (rerun_count rerun (c_jobs c) Hnd Hr Hi) as Hcount.
-  pose proof (filter_split_length (fun j => memN (s_name j) rerun) (c_jobs c)) as Hsplit.
-  assert (Hle : length (filter (counts_completed rerun) (c_jobs c)) <=
-                length (filter (fun j => negb (memN (s_name j) rerun)) (c_jobs c))).
-  { clear. induction (c_jobs c) as [|j t IH]; cbn; [lia|]. unfold counts_completed at 1.
-    destruct (memN (s_name j) rerun); cbn; [exact IH|]. destruct (jstate_eqb (s_state j) DONE); cbn; lia. }
-  rewrite Hn. lia.
+  unfold prepare. destruct (c_complete c); [|discriminate]. intros E. inversion E; subst c'; cbn.
+  rewrite !filter_map_length.
+  assert (H1 : forall j, negb (jstate_eqb (s_state (prep_job rerun d j)) NOT_SUBMITTED) = counts_submitted rerun j).
+  { intros j. unfold prep_job, counts_submitted. destruct (memN (s_name j) rerun); reflexivity. }
+  assert (H2 : forall j, jstate_eqb (s_state (prep_job rerun d j)) DONE = counts_completed rerun j).
+  { intros j. unfold prep_job, counts_completed. destruct (memN (s_name j) rerun); reflexivity. }
+  rewrite (filter_ext_length _ _ _ H1), (filter_ext_length _ _ _ H2).
+  split; [reflexivity|]. split; [reflexivity|]. split.
+  - pose proof (filter_le_length (counts_completed rerun) (counts_submitted rerun) (c_jobs c)) as Hle.
+    assert (Himp : forall x, counts_completed rerun x = true -> counts_submitted rerun x = true).
+    { intros x. unfold counts_completed, counts_submitted. destruct (memN (s_name x) rerun); cbn; [congruence|].
+      destruct (s_state x); cbn; congruence. }
+    specialize (Hle Himp). lia.
+  - intros Hn. rewrite Hn.
+    assert (Hl : length (filter (counts_submitted rerun) (c_jobs c)) <= length (c_jobs c)).
+    { clear. induction (c_jobs c) as [|a l IH]; cbn; [lia|]. destruct (counts_submitted rerun a); cbn; lia. }
+    lia.
 Qed.
 
 (* composition: after closure + prepare every blocker of a rerun job is itself a rerun job, hence
